@@ -237,7 +237,9 @@ class Calibrate(Spec):
             h.store(o, 'op_key', strlit(key)); h.store(o, 'inputs', ins); h.store(o, 'outputs', outs); p.pc.append(ISIO(o))
         h.store(lst, '$items:ref', z3.Store(z3.Store(fresh('io_items', z3.ArraySort(I, Ref)), 0, o_in), 1, o_out)); h.store(lst, '$len', z3.IntVal(2))
         # allocation: a new object differs from every object reachable through the operator list (objects appended by earlier iterations included)
-        p.facts.append(Schematic(1, lambda k: Implies(And(0 <= k, k < nc), And(itc[k] != o_in, itc[k] != o_out, itc[k] != lst)), 'alloc:fresh-vs-operator-list'))
+        # (instantiation hint as in EngineX: the list is named by the term the invariants use; the fact is guarded by `alias == list`, hence valid whatever the hint is)
+        R = S.L; itc = items_r(h, R); nc = ln(h, R)
+        p.facts.append(Schematic(1, lambda k: Implies(And(R == Lc, 0 <= k, k < nc), And(itc[k] != o_in, itc[k] != o_out, itc[k] != lst)), 'alloc:fresh-vs-operator-list'))
         return V('list[ref]', lst)
     def k_isinstance(self, E, p, args, kw, node): return vbool(ISIO(args[0].term))
     def k_scope(self, E, p, args, kw, node): return V('str', SCOPEF(p.heap.load(args[0].term, 'outputs'), args[1].term))
